@@ -14,10 +14,10 @@
 (*   crc32   igris_crc32         0x04C11DB7, MSB first over little-endian  *)
 (*           32-bit words; a tail of 1..3 bytes is a zero-extended word    *)
 (***************************************************************************)
-EXTENDS Integers, Sequences, TLC
+EXTENDS Integers, Sequences, TLC, Bitwise
 
-Xor(a, b) == IF a = b THEN 0 ELSE 1
-XorSeq(x, y) == [i \in 1..Len(x) |-> Xor(x[i], y[i])]
+XorB(a, b) == IF a = b THEN 0 ELSE 1
+XorSeq(x, y) == [i \in 1..Len(x) |-> XorB(x[i], y[i])]
 \* bits of a byte, MSB first
 ByteBits(b) == [i \in 1..8 |-> (b \div (2^(8-i))) % 2]
 BitsByte(s) == s[1]*128 + s[2]*64 + s[3]*32 + s[4]*16 + s[5]*8 + s[6]*4 + s[7]*2 + s[8]
@@ -26,12 +26,12 @@ Zeros(n) == [i \in 1..n |-> 0]
 
 \* one data bit into an MSB-first register (polynomial given without its top term)
 StepMsb(reg, poly, d) ==
-   LET top == Xor(reg[1], d)
+   LET top == XorB(reg[1], d)
        sh == Tail(reg) \o <<0>>
    IN IF top = 1 THEN XorSeq(sh, poly) ELSE sh
 \* one data bit into an LSB-first (reflected) register
 StepLsb(reg, poly, d) ==
-   LET mix == Xor(reg[Len(reg)], d)
+   LET mix == XorB(reg[Len(reg)], d)
        sh == <<0>> \o SubSeq(reg, 1, Len(reg) - 1)
    IN IF mix = 1 THEN XorSeq(sh, poly) ELSE sh
 RECURSIVE FeedBits(_, _, _, _, _)
@@ -72,11 +72,32 @@ WordBits(bytes) ==
         IN BytesBits(RevSeq(w), TRUE) \o WordBits(SubSeq(bytes, n + 1, Len(bytes)))
 Crc32(seedLE, bytes) == RegLE(FeedBits(BitsOfLE(seedLE), P04C11DB7, WordBits(bytes), 1, TRUE))
 
+\* ----- CRC-32 once more, byte-at-a-time on a register held as two 16-bit halves <<hi, lo>> with a 256-entry table that is
+\* itself computed from the bit-serial definition; no recursion deeper than log(length), so that TLC can evaluate it on
+\* messages of hundreds of kilobytes.  CrcMC.tla checks Fast32 = Crc32 on the enumerated domain.
+RECURSIVE BitsNat(_)
+BitsNat(bits) == IF bits = <<>> THEN 0 ELSE 2 * BitsNat(SubSeq(bits, 1, Len(bits) - 1)) + bits[Len(bits)]
+Tbl32 == [b \in 0..255 |-> LET r == FeedBits(Zeros(32), P04C11DB7, ByteBits(b), 1, TRUE) IN <<BitsNat(SubSeq(r, 1, 16)), BitsNat(SubSeq(r, 17, 32))>>]
+StepB(hl, byte) == LET t == Tbl32[(hl[1] \div 256) ^^ byte]
+                   IN <<(((hl[1] % 256) * 256) + (hl[2] \div 256)) ^^ t[1], ((hl[2] % 256) * 256) ^^ t[2]>>
+\* the byte that enters at step j: little-endian words most significant byte first, a short tail zero-extended
+ByteAtStep(bytes, j) == LET i == 4 * ((j - 1) \div 4) + (4 - ((j - 1) % 4)) IN IF i <= Len(bytes) THEN bytes[i] ELSE 0
+RECURSIVE Fold32(_, _, _, _)
+Fold32(hl, bytes, lo, hi) ==
+   IF lo > hi THEN hl
+   ELSE IF lo = hi THEN StepB(hl, ByteAtStep(bytes, lo))
+   \* (the test on the left half forces its evaluation before the right half starts: TLC passes arguments lazily and would
+   \* otherwise build a chain of suspended calls as long as the message)
+   ELSE LET mid == (lo + hi) \div 2  left == Fold32(hl, bytes, lo, mid) IN IF left[1] >= 0 THEN Fold32(left, bytes, mid + 1, hi) ELSE left
+Fast32(seedLE, bytes) ==
+   LET r == Fold32(<<seedLE[4] * 256 + seedLE[3], seedLE[2] * 256 + seedLE[1]>>, bytes, 1, 4 * ((Len(bytes) + 3) \div 4))
+   IN <<r[2] % 256, r[2] \div 256, r[1] % 256, r[1] \div 256>>
+
 Def(fn, seedLE, bytes) ==
    CASE fn = "strm8"  -> <<Strm8(seedLE[1], bytes)>>
      [] fn = "dallas" -> <<Dallas(seedLE[1], bytes)>>
      [] fn = "dallas_table" -> <<Dallas(seedLE[1], bytes)>>
      [] fn = "crc16"  -> Crc16(seedLE, bytes)
      [] fn = "crc7"   -> <<Crc7(bytes)>>
-     [] fn = "crc32"  -> Crc32(seedLE, bytes)
+     [] fn = "crc32"  -> IF Len(bytes) > 64 THEN Fast32(seedLE, bytes) ELSE Crc32(seedLE, bytes)
 =============================================================================
